@@ -327,16 +327,20 @@ bool hasComponentImports(const ComponentEntityConstPtr &componentEntity)
     return importsPresent;
 }
 
-bool hasUnitsImports(const UnitsPtr &units)
+bool hasUnitsImports(const UnitsPtr &units, std::vector<UnitsPtr> &visitedUnits)
 {
     bool importPresent = units->isImport();
+    if (std::find(visitedUnits.begin(), visitedUnits.end(), units) != visitedUnits.end()) {
+        return importPresent;
+    }
+    visitedUnits.push_back(units);
     auto model = owningModel(units);
     size_t unistCount = units->unitCount();
     for (size_t index = 0; !importPresent && (index < unistCount); ++index) {
         std::string reference = units->unitAttributeReference(index);
         if (!reference.empty() && !isStandardUnitName(reference)) {
             if (model->hasUnits(reference)) {
-                importPresent = hasUnitsImports(model->units(reference));
+                importPresent = hasUnitsImports(model->units(reference), visitedUnits);
             }
         }
     }
@@ -348,7 +352,8 @@ bool Model::hasImports() const
     bool importsPresent = false;
     for (size_t index = 0; (index < unitsCount()) && !importsPresent; ++index) {
         libcellml::UnitsPtr units = Model::units(index);
-        importsPresent = hasUnitsImports(units);
+        std::vector<UnitsPtr> visitedUnits;
+        importsPresent = hasUnitsImports(units, visitedUnits);
     }
 
     if (!importsPresent) {
